@@ -5,7 +5,11 @@ touch the same objects (MMIO accesses bound to the two Apbp objects and to the I
 Run cycle) is executed with pthread_mutex_lock/unlock modelled; every access to shared objects is logged with address,
 read/write, atomicity and the set of locks held. Obligation per pair of accesses from different threads: address ranges
 can overlap AND one is a write AND not both atomic AND the lock sets are disjoint  -- must be unsatisfiable.
+Atomicity: operations whose critical sections can be separated by an operation of the other thread are executed in that
+schedule (the other operation runs from inside the pthread_mutex_lock intercept) and compared with both sequential orders;
+counterexamples are replayed on the real library with the same schedule (harness pthread_mutex_lock hook).
 Liveness ("eventually observed"), weak-memory effects and schedules inside std::mutex are not decided (DESIGN section 3)."""
+import random
 import z3
 from engine import build, kit, core
 from engine.kit import Ptr, bv, is_c
@@ -81,6 +85,9 @@ def mutex_name(G, ex, st, ctx, p):
     return n
 
 
+_ACQ = {}
+
+
 def trace_entry(G, ex, st, ctx, hostcb, fn, args, extra_pc=()):
     """run one entry point; returns (accesses, callback events, problems)"""
     s1 = st.fork()
@@ -89,6 +96,7 @@ def trace_entry(G, ex, st, ctx, hostcb, fn, args, extra_pc=()):
     ex.lockset = []
     cb_events = []
     problems = []
+    acq = []
     shared = {ctx['impl'].r, ctx['proc'].r}
     for nm in ('apbp_from_cpu', 'apbp_from_dsp'):
         shared.add(ex.load(st, Ptr(ctx['impl'].r, G.off[nm]), 8).r)
@@ -98,6 +106,7 @@ def trace_entry(G, ex, st, ctx, hostcb, fn, args, extra_pc=()):
         name = mutex_name(G, e, st_, ctx, p)
         if (p.r, p.o) in [(q[0], q[1]) for q in e.lockset] and 'semaphore_mutex' not in name:
             problems.append('self-deadlock: %s locked twice on one thread in %s' % (name, fn))
+        acq.append(((p.r, p.o), name, [(q[0], q[1]) for q in e.lockset]))
         e.lockset.append((p.r, p.o, name))
         return st_, 0
 
@@ -131,7 +140,268 @@ def trace_entry(G, ex, st, ctx, hostcb, fn, args, extra_pc=()):
         ex.mem_trace = None
         ex.lockset = []
     acc = [t for t in tr if t[1] in shared]
+    _ACQ[fn, tuple(str(a) for a in args)] = acq
     return acc, cb_events, problems
+
+
+# ------------------------------------------------------------------------------------------------ atomicity / linearizability
+def shared_regions(G, ex, st, ctx):
+    sh = {ctx['impl'].r, ctx['proc'].r}
+    for nm in ('apbp_from_cpu', 'apbp_from_dsp'):
+        sh.add(ex.load(st, Ptr(ctx['impl'].r, G.off[nm]), 8).r)
+    return sh
+
+
+def ret64(r):
+    if r is None:
+        return 0
+    if z3.is_bool(r):
+        return z3.If(r, z3.BitVecVal(1, 64), z3.BitVecVal(0, 64))
+    if z3.is_expr(r):
+        return z3.ZeroExt(64 - r.size(), r) if r.size() < 64 else r
+    return int(r)
+
+
+def lin_run(G, ex, st, ctx, hostcb, ops, inter=None):
+    """run the operations `ops` = [(tag, fn, args)] one after the other on a fork of st; inter = (k, (tag, fn, args)): the
+    other thread's operation runs, as one atomic step, when the first operation reaches its k-th mutex acquisition (it is
+    not holding the mutex yet; a schedule in which the other thread wins the race for it). Returns the outcome."""
+    s1 = st.fork()
+    lin = ex.new_region(s1, 16, 'lin')
+    ex.fill(s1, Ptr(lin, 0), 16, 0)
+    cbs = []
+    state = {'depth': 0}
+    ex.mem_trace = []
+    ex.lockset = []
+
+    def lock(e, st_, a):
+        p = a[0]
+        if state['depth'] == 0:
+            n = e.load(st_, Ptr(lin, 0), 4)
+            if not is_c(n):
+                raise Abort('path-dependent lock count')
+            if inter is not None and n == inter[0]:
+                state['depth'] = 1
+                saved, e.lockset = e.lockset, []
+                state['held'] = [(q[0], q[1]) for q in saved]
+                r = e.call(st_, inter[1][1], inter[1][2])
+                e.lockset = saved
+                state['depth'] = 0
+                if r is None or r is DEAD:
+                    raise Abort('interleaved operation does not return')
+                st_ = r[0]
+                e.store(st_, Ptr(lin, 4), 4, 1)
+                e.store(st_, Ptr(lin, 8), 8, ret64(r[1]))
+            e.store(st_, Ptr(lin, 0), 4, n + 1)
+        e.lockset.append((p.r, p.o, ''))
+        return st_, 0
+
+    def unlock(e, st_, a):
+        p = a[0]
+        for k in range(len(e.lockset) - 1, -1, -1):
+            if (e.lockset[k][0], e.lockset[k][1]) == (p.r, p.o):
+                del e.lockset[k]
+                break
+        return st_, 0
+    ex.intercepts['@pthread_mutex_lock'] = lock
+    ex.intercepts['@pthread_mutex_unlock'] = unlock
+    cbset = {(r_, o_): n_ for r_, o_, n_ in hostcb}
+    real = {}
+
+    def fcall(e, st_, a):
+        p = a[0]
+        if isinstance(p, Ptr) and not p.sym and (p.r, p.o) in cbset:
+            cbs.append((cbset[(p.r, p.o)], z3.And(*st_.pc) if st_.pc else z3.BoolVal(True)))
+            return st_, None
+        return e.call_plain(st_, real['n'], a)
+    for n in G.mod.funcs:
+        if n.endswith('functionIFvvEEclEv'):
+            real['n'] = n
+            ex.intercepts[n] = fcall
+    rets = {}
+    cur = s1
+    try:
+        ex.exits = []
+        for tag, fn, args in ops:
+            ex.store(cur, Ptr(lin, 0), 4, 0)
+            r = ex.call(cur, fn, args)
+            if r is None or r is DEAD:
+                raise Abort('%s does not return' % tag)
+            cur = r[0]
+            rets[tag] = r[1]
+        if inter is not None:
+            fired = ex.load(cur, Ptr(lin, 4), 4)
+            rets[inter[1][0]] = ex.load(cur, Ptr(lin, 8), 8)
+    finally:
+        tr = ex.mem_trace
+        ex.mem_trace = None
+        ex.lockset = []
+    sh = shared_regions(G, ex, st, ctx)
+    writes = {(t[1], t[2], t[3]) for t in tr if t[0] == 'W' and t[1] in sh and is_c(t[2])}
+    return {'st': cur, 'rets': rets, 'writes': writes, 'cbs': cbs, 'exits': list(ex.exits), 'held': state.get('held', []), 'fired': fired if inter is not None else None}
+
+
+def same_outcome(ex, x, y, locs, tags):
+    c = []
+    for t in tags:
+        a, b = x['rets'].get(t), y['rets'].get(t)
+        if a is None and b is None:
+            continue
+        a, b = bv(ret64(a), 64), bv(ret64(b), 64)
+        c.append(z3.Extract(15, 0, a) == z3.Extract(15, 0, b))
+    for rid, off, n in sorted(locs, key=str):
+        va, vb = ex.load(x['st'], Ptr(rid, off), n), ex.load(y['st'], Ptr(rid, off), n)
+        if isinstance(va, Ptr) or isinstance(vb, Ptr):
+            if not (isinstance(va, Ptr) and isinstance(vb, Ptr) and (va.r, va.o) == (vb.r, vb.o)):
+                c.append(z3.BoolVal(False))
+            continue
+        if is_c(va) and is_c(vb):
+            if va != vb:
+                c.append(z3.BoolVal(False))
+            continue
+        va, vb = bv(va, 8 * n), bv(vb, 8 * n)
+        if not va.eq(vb):
+            c.append(va == vb)
+    names = sorted({n for n, g in x['cbs']} | {n for n, g in y['cbs']})
+    for nm in names:
+        cnt = lambda o: z3.Sum([z3.If(g, z3.BitVecVal(1, 8), z3.BitVecVal(0, 8)) for n, g in o['cbs'] if n == nm] + [z3.BitVecVal(0, 8)])
+        c.append(cnt(x) == cnt(y))
+    return z3.And(*c) if c else z3.BoolVal(True)
+
+
+def interleave_points(acqA, acqB):
+    """indices k >= 1 of A's acquisitions at which B can run: B needs the mutex A is about to take and none A holds"""
+    needB = {a[0] for a in acqB}
+    return [k for k, (m, name, held) in enumerate(acqA) if k >= 1 and m in needB and not (set(held) & needB)]
+
+
+def lin_job(pairs, tier, seed):
+    ck = core.Check('C19', 'other', tier, seed)
+    G = graph.get()
+    ex, st, ctx, Aov, names, hostcb = setup(G)
+    for (A, B, k) in pairs:
+        nm = 'Linearizable[%s || %s @%d]' % (A[0], B[0], k)
+        try:
+            n0 = ex.ninstr
+            for attempt in range(3):
+                inter = lin_run(G, ex, st, ctx, hostcb, [A], (k, B))
+                ab = lin_run(G, ex, st, ctx, hostcb, [A, B])
+                ba = lin_run(G, ex, st, ctx, hostcb, [B, A])
+                locs = inter['writes'] | ab['writes'] | ba['writes']
+                # never-initialised bytes read as a fresh variable per state: give the three schedules the same initial
+                # garbage by materialising it in the common ancestor, then run again
+                fresh = locs - _PINNED
+                if not fresh:
+                    break
+                for rid, off, n_ in fresh:
+                    ex.load(st, Ptr(rid, off), n_)
+                _PINNED.update(fresh)
+            ck.ninstr += ex.ninstr - n0
+            ck.nstates += 3
+        except (Abort, UnwindBound) as x:
+            ck.inconclusive.append('%s: %s' % (nm, str(x)[:100]))
+            continue
+        tags = (A[0], B[0])
+        goal = z3.Or(same_outcome(ex, inter, ab, locs, tags), same_outcome(ex, inter, ba, locs, tags))
+        fired = inter['fired']
+        if is_c(fired) and fired == 0:
+            ck.identical(nm)
+            continue
+        reached = [bv(fired, 32) == 1]      # paths of the first operation that do not reach this acquisition are plain sequential runs
+        vars_ = {'value': LV['a'], 'value2': LV['b']}
+        vars_.update({n: t for n, t in names.items() if n.startswith(('apbp', 'icu.'))})
+        ck.prove(nm, Aov + reached, goal, vars=vars_, witness=True, replay=lin_replay(G, A, B, k),
+                 sample='%s with %s placed between its critical sections (before mutex acquisition %d): return values, final mailbox/ICU/latch state and host callback counts equal one of the two sequential orders' % (A[0], B[0], k))
+    return ck.export()
+
+
+SIG = {'@ti_senddata': (None, 'u8', 'u16'), '@ti_recvdata': ('u16', 'u8'), '@ti_peekrecvdata': ('u16', 'u8'), '@ti_senddataisempty': ('u8', 'u8'), '@ti_recvdataisready': ('u8', 'u8'),
+       '@ti_setsemaphore': (None, 'u16'), '@ti_getsemaphore': ('u16',), '@ti_clearsemaphore': (None, 'u16'), '@ti_masksemaphore': (None, 'u16'), '@ti_mmio_write': (None, 'u16', 'u16'), '@ti_mmio_read': ('u16', 'u16')}
+
+
+def lin_replay(G, A, B, k):
+    """native schedule replay: the real library, B run from inside A's k-th pthread_mutex_lock (harness hook)"""
+    import ctypes
+    from engine import native
+    CT = {'u8': ctypes.c_uint8, 'u16': ctypes.c_uint16, None: None}
+
+    def rep(inputs):
+        tw = native.Twin(build.compile_so('h_teakra.cpp'))
+        locs = c12.field_locations(G)
+        ex, st, ctx = G.build_impl()
+        impl = ctx['impl'].r
+        heap = {}
+        for nm in ('apbp_from_cpu', 'apbp_from_dsp'):
+            p_ = ex.load(st, Ptr(impl, G.off[nm]), 8)
+            heap[p_.r] = (nm, p_.o)
+
+        def argv(a):
+            if is_c(a):
+                return a
+            return int(inputs.get(str(a), 0))
+
+        def schedule(kind):
+            def body():
+                t = tw.fn('tn_new', ctypes.c_void_p, [])()
+                for name, (rid, off, sz) in locs.items():
+                    if name not in inputs:
+                        continue
+                    if rid == impl:
+                        addr = t + off
+                    elif rid in heap:
+                        base = int.from_bytes(ctypes.string_at(t + G.off[heap[rid][0]], 8), 'little')
+                        addr = base + off - heap[rid][1]
+                    else:
+                        continue
+                    ctypes.memmove(addr, int(inputs[name]).to_bytes(sz, 'little'), sz)
+
+                def call(op):
+                    sig = SIG[op[1]]
+                    f = tw.fn(op[1][1:], CT[sig[0]], [ctypes.c_void_p] + [CT[x] for x in sig[1:]])
+                    r_ = f(t, *[argv(a) for a in op[2][1:]])
+                    return int(r_) if r_ is not None else None
+                out = {}
+                if kind == 'inter':
+                    HK = ctypes.CFUNCTYPE(None)
+                    hk = HK(lambda: out.__setitem__(B[0], call(B)))
+                    tw.fn('tn_set_hook', None, [ctypes.c_int, HK])(k, hk)
+                    out[A[0]] = call(A)
+                    if tw.fn('tn_hook_pending', ctypes.c_int, [])():
+                        return None
+                else:
+                    for op in ((A, B) if kind == 'ab' else (B, A)):
+                        out[op[0]] = call(op)
+                fin = {}
+                for name, (rid, off, sz) in locs.items():
+                    if rid == impl and name.startswith('icu.'):
+                        addr = t + off
+                    elif rid in heap:
+                        base = int.from_bytes(ctypes.string_at(t + G.off[heap[rid][0]], 8), 'little')
+                        addr = base + off - heap[rid][1]
+                    else:
+                        continue
+                    fin[name] = int.from_bytes(ctypes.string_at(addr, sz), 'little')
+                return {'rets': out, 'final': fin}
+            return native.in_child(body, timeout=120)
+        res = {kk: schedule(kk) for kk in ('inter', 'ab', 'ba')}
+        if any(v[0] != 'ok' or v[1] is None for v in res.values()):
+            return False, {'native': {kk: (v[0], None if v[0] == 'ok' else v[1]) for kk, v in res.items()}}
+        i_, ab, ba = res['inter'][1], res['ab'][1], res['ba'][1]
+        diff = lambda x, y: sorted([kk for kk in x['final'] if x['final'][kk] != y['final'][kk]] + ['ret ' + kk for kk in x['rets'] if x['rets'][kk] != y['rets'].get(kk)])
+        d1, d2 = diff(i_, ab), diff(i_, ba)
+        return bool(d1 and d2), {'interleaved': i_['rets'], 'vs %s;%s differs in' % (A[0], B[0]): d1[:8], 'vs %s;%s differs in' % (B[0], A[0]): d2[:8]}
+    return rep
+
+
+LV = {'a': z3.BitVec('value', 16), 'b': z3.BitVec('value2', 16)}
+
+
+_PAIRS = []
+_PINNED = set()
+
+
+def _lin_dispatch(idx, tier, seed):
+    return lin_job([_PAIRS[i] for i in idx], tier, seed)
 
 
 def run(tier, seed):
@@ -212,6 +482,42 @@ def run(tier, seed):
         desc = sorted({'%s (%s) vs %s (%s)' % (p[0], 'write' if p[1] == 'W' else 'read', p[2], 'write' if p[3] == 'W' else 'read') for p in pairs})
         ck.prove('RaceFree[%s]' % key, A, z3.Not(z3.Or(*conds)), vars={'index': i8, 'value': v}, witness=False,
                  sample='%s: unordered non-atomic pair(s): %s' % (key, '; '.join(desc[:4])))
+    # ---- atomicity: an operation whose protected accesses span several critical sections is interleaved with every
+    # operation of the other thread that competes for the same mutex, and must still equal a sequential order
+    v2 = LV['b']
+    sub = lambda args: [v2 if (z3.is_expr(a) and a.eq(v)) else a for a in args]
+    acq_of = lambda fn, args: _ACQ.get((fn, tuple(str(a) for a in args)), [])
+    pairs = []
+    for sideA, entA, entB in (('host', host, dsp), ('dsp', dsp, host)):
+        for nameA, fnA, argsA, _x in entA:
+            if (sideA, nameA) not in traces:
+                continue
+            aA = acq_of(fnA, argsA)
+            n_pts = 0
+            for nameB, fnB, argsB, _y in entB:
+                aB = acq_of(fnB, argsB)
+                for k in interleave_points(aA, aB):
+                    pairs.append(((nameA, fnA, argsA), (nameB, fnB, sub(argsB)), k))
+                    n_pts += 1
+            if n_pts == 0:
+                ck.identical('Atomic[%s]' % nameA, sample=('%s: %d mutex acquisition(s); no operation of the other thread can run between two of its critical sections on a mutex both use, so every schedule is a sequential order' % (nameA, len(aA))) if nameA in ('RecvData(0)', 'MMIO write 0x0c0') else None)
+    if tier == 'quick' and len(pairs) > 96:
+        rnd = random.Random(seed)
+        writes = [p_ for p_ in pairs if 'write' in p_[1][0] or 'write' in p_[0][0] or not p_[1][0].startswith('MMIO')]
+        rest = [p_ for p_ in pairs if p_ not in writes]
+        rnd.shuffle(writes)
+        rnd.shuffle(rest)
+        ck.notes.append('%d interleaving points; quick tier decides %d of them (seeded sample, write operations first)' % (len(pairs), 96))
+        pairs = (writes + rest)[:96]
+    else:
+        ck.notes.append('%d interleaving points, all decided' % len(pairs))
+    _PAIRS[:] = pairs
+    chunks = [list(range(len(pairs)))[i::16] for i in range(16) if pairs[i::16]]
+    for r in core.pmap(_lin_dispatch, [(c, tier, seed) for c in chunks]):
+        if '__error__' in r:
+            ck.engine_errors.append(r['__error__'])
+        else:
+            ck.absorb(r)
     # ---- re-entrancy: a host callback is never invoked while a non-recursive mutex is held
     for entry, cbname, held in allcb:
         bad = [h for h in held if 'semaphore_mutex' not in h]
@@ -225,7 +531,7 @@ def run(tier, seed):
                      'the MMIO closures at 0x0C0..0x0D8 and 0x200..0x250', 'std::lock_guard / std::mutex / std::recursive_mutex down to pthread_mutex_lock'])
     ck.assumptions += ['threads: the host thread runs the mailbox/semaphore API, the DSP thread runs Run (whose accesses to these objects are MMIO reads/writes of the APBP and ICU registers and interrupt delivery); handler setters are not part of the concurrent API',
                        'pthread_mutex_lock/unlock are modelled as lock-set bookkeeping; atomics are atomic; everything between is sequential code executed symbolically',
-                       'decided: data-race freedom by lock sets and callback re-entrancy. NOT decided: "the last value sent is always eventually observed", "at least one interrupt delivery" (liveness), memory-order effects, and interleavings inside one critical section (their outcomes follow from C14\'s one-step results because each operation is atomic under its mutex)']
-    ck.bounds += ['one call per entry point from an arbitrary mailbox/ICU state, channel index enumerated 0..2, callback re-entrancy depth 1']
-    expl = 'lock-set / atomicity analysis over symbolic executions of the real entry points; SMT decides whether an unordered access pair is reachable. Fairness/liveness and weak-memory clauses of C19 are outside the claim.'
+                       'decided: data-race freedom by lock sets, callback re-entrancy, and atomicity: an operation with a point between two of its critical sections at which an operation of the other thread competing for the same mutex can run is executed with that operation placed there (every such point x every competing operation) and must equal one of the two sequential orders in return values, final mailbox/ICU/latch state and host-callback counts - so "every value read is one that was written, in send order, the last value is observable" reduce to the sequential one-step results of C14. NOT decided: fairness ("eventually"), memory-order effects of the atomics, more than two operations in flight, schedules that preempt inside a critical section (excluded by the mutex itself)']
+    ck.bounds += ['one call per entry point from an arbitrary mailbox/ICU state, channel index enumerated 0..2, callback re-entrancy depth 1', 'interleavings: two operations (one per thread), the second placed as one atomic step at a critical-section boundary of the first; quick tier at most 96 interleaving points (seeded sample), thorough all']
+    expl = 'lock-set analysis and two-operation linearizability over symbolic executions of the real entry points; SMT decides whether an unordered access pair is reachable and whether an interleaved schedule differs from both sequential orders. Fairness/liveness and weak-memory clauses of C19 are outside the claim.'
     return ck.finish(expl)
